@@ -445,7 +445,9 @@ func c03Run(r *vkit.Run) {
 	if r.Shard == 2%max(r.NShards, 1) {
 		var fixed []c03Rec
 		for k, t := range []time.Time{time.Date(2024, 1, 2, 3, 4, 0, 1, time.UTC), time.Date(2024, 1, 2, 3, 4, 0, 999999999, time.UTC), time.Date(2024, 1, 2, 3, 4, 1, 0, time.UTC),
-			time.Date(2024, 1, 2, 3, 5, 7, 123456789, time.UTC), time.Date(2025, 12, 31, 23, 59, 59, 999999999, time.UTC), time.Date(2024, 1, 2, 3, 4, 0, 500000000, time.UTC)} {
+			time.Date(2024, 1, 2, 3, 5, 7, 123456789, time.UTC), time.Date(2025, 12, 31, 23, 59, 59, 999999999, time.UTC), time.Date(2024, 1, 2, 3, 4, 0, 500000000, time.UTC),
+			// the first second after the epoch
+			time.Unix(0, 1).UTC(), time.Unix(0, 500000000).UTC(), time.Unix(0, 999999999).UTC()} {
 			text := t.Format("2006-01-02T15:04:05.000000000Z")
 			fixed = append(fixed, c03Rec{Stream: byte(1 + k%2), TS: text, NS: t.UnixNano(), Msg: fmt.Sprintf("m%d", k)})
 		}
